@@ -9,19 +9,19 @@ namespace GlueVerif.C02
 /-- what an entry of `pend` (a still un-resolved callback field) must be -/
 def PendOk (h : Heap) (reg : Reg) (st : LState) (e : Nat × Nat × JVal) : Prop :=
   ∃ n o ob f, lookupMemo st.memo n = some e.1 ∧ (o, n) ∈ reg ∧ h[o]? = some ob ∧ ob.fields[e.2.1]? = some f ∧
-    f.phase = .cb ∧ e.2.2 = encVal reg f.val
+    f.phase = .cb ∧ e.2.2 = encVal h reg h.length f.val
 
 /-- fields of a completely loaded object *before* the callbacks have run -/
-def CellVals (reg : Reg) (st : LState) (c : Nat) : Nat → List Field → List LVal → Prop
+def CellVals (h : Heap) (reg : Reg) (st : LState) (c : Nat) : Nat → List Field → List LVal → Prop
   | _, [], [] => True
   | k, f :: fs, l :: ls =>
-    (if f.phase = .cb then l = .pending ∧ (c, k, encVal reg f.val) ∈ st.pend ∧ c ∈ st.callbacks
-     else RelVal reg st.memo f.val l) ∧ CellVals reg st c (k + 1) fs ls
+    (if f.phase = .cb then l = .pending ∧ (c, k, encVal h reg h.length f.val) ∈ st.pend ∧ c ∈ st.callbacks
+     else RelV h reg st.heap st.memo h.length f.val l) ∧ CellVals h reg st c (k + 1) fs ls
   | _, _, _ => False
 
 def GoodC (h : Heap) (reg : Reg) (st : LState) (n : Str) (i : Nat) : Prop :=
   i < st.heap.length ∧ ∃ o ob lo, (o, n) ∈ reg ∧ h[o]? = some ob ∧ st.heap[i]? = some lo ∧
-    lo.cls = ob.cls ∧ CellVals reg st i 0 ob.fields lo.fields
+    lo.cls = ob.cls ∧ CellVals h reg st i 0 ob.fields lo.fields
 
 structure LInvC (h : Heap) (reg : Reg) (prog : List Str) (st : LState) : Prop where
   keysNodup : (st.memo.map Prod.fst).Nodup
@@ -32,86 +32,94 @@ structure LInvC (h : Heap) (reg : Reg) (prog : List Str) (st : LState) : Prop wh
   good : ∀ e ∈ st.memo, e.1 ∉ prog → GoodC h reg st e.1 e.2
 
 structure LExtC (st st' : LState) : Prop where
-  memo : MemoLe st.memo st'.memo
-  heap : HeapLe st.heap st'.heap
+  le : SLe st st'
   work : st'.working = st.working
   pend : ∀ e ∈ st.pend, e ∈ st'.pend
   cbs : ∀ c ∈ st.callbacks, c ∈ st'.callbacks
 
-theorem LExtC.refl (st : LState) : LExtC st st := ⟨MemoLe.refl _, HeapLe.refl _, rfl, fun _ h => h, fun _ h => h⟩
+theorem LExtC.refl (st : LState) : LExtC st st := ⟨SLe.refl _, rfl, fun _ h => h, fun _ h => h⟩
 theorem LExtC.trans {a b c : LState} (h1 : LExtC a b) (h2 : LExtC b c) : LExtC a c :=
-  ⟨h1.memo.trans h2.memo, h1.heap.trans h2.heap, by rw [h2.work, h1.work],
+  ⟨h1.le.trans h2.le, by rw [h2.work, h1.work],
    fun e he => h2.pend e (h1.pend e he), fun x hx => h2.cbs x (h1.cbs x hx)⟩
+theorem LExtC.memo {a b : LState} (h : LExtC a b) : MemoLe a.memo b.memo := h.le.memo
+theorem LExtC.heap {a b : LState} (h : LExtC a b) : HeapLe a.heap b.heap := h.le.heap
 
 theorem PendOk.mono {h : Heap} {reg : Reg} {st st' : LState} (hm : MemoLe st.memo st'.memo) {e : Nat × Nat × JVal}
     (hp : PendOk h reg st e) : PendOk h reg st' e := by
   obtain ⟨n, o, ob, f, a1, a2, a3, a4, a5, a6⟩ := hp
   exact ⟨n, o, ob, f, hm _ _ a1, a2, a3, a4, a5, a6⟩
 
-theorem CellVals.mono {reg : Reg} {st st' : LState} {c : Nat} (hm : MemoLe st.memo st'.memo)
+theorem CellVals.mono {h : Heap} {reg : Reg} {st st' : LState} {c : Nat} (hm : RelPres h reg st st')
     (hp : ∀ e ∈ st.pend, e ∈ st'.pend) (hc : ∀ x ∈ st.callbacks, x ∈ st'.callbacks) :
-    ∀ {k : Nat} {fs : List Field} {ls : List LVal}, CellVals reg st c k fs ls → CellVals reg st' c k fs ls
+    ∀ {k : Nat} {fs : List Field} {ls : List LVal}, CellVals h reg st c k fs ls → CellVals h reg st' c k fs ls
   | _, [], [], _ => trivial
-  | _, _ :: _, [], h => by simp [CellVals] at h
-  | _, [], _ :: _, h => by simp [CellVals] at h
-  | _, f :: _, _ :: _, h => by
-    refine ⟨?_, CellVals.mono hm hp hc h.2⟩
-    have h1 := h.1
+  | _, _ :: _, [], h0 => by simp [CellVals] at h0
+  | _, [], _ :: _, h0 => by simp [CellVals] at h0
+  | _, f :: _, _ :: _, h0 => by
+    refine ⟨?_, CellVals.mono hm hp hc h0.2⟩
+    have h1 := h0.1
     by_cases hph : f.phase = .cb
     · simp only [hph, if_true] at h1 ⊢
       exact ⟨h1.1, hp _ h1.2.1, hc _ h1.2.2⟩
     · simp only [hph, if_false] at h1 ⊢
-      exact RelVal.mono hm h1
+      exact hm _ _ _ h1
+
+theorem GoodC.le {h : Heap} {reg : Reg} {st st' : LState} (hle : SLe st st') (hp : ∀ e ∈ st.pend, e ∈ st'.pend)
+    (hc : ∀ x ∈ st.callbacks, x ∈ st'.callbacks) {n : Str} {i : Nat} (hg : GoodC h reg st n i) : GoodC h reg st' n i := by
+  obtain ⟨hlt, o, ob, lo, a1, a2, a3, a4, a5⟩ := hg
+  exact ⟨Nat.lt_of_lt_of_le hlt hle.heap.1, o, ob, lo, a1, a2, hle.heap.get a3, a4, CellVals.mono hle.relPres hp hc a5⟩
 
 /-- values of a freshly allocated object: only the early fields are resolved -/
-def InitValsC (reg : Reg) (memo : List (Str × Nat)) : List Field → List LVal → Prop
+def InitValsC (h : Heap) (reg : Reg) (st : LState) : List Field → List LVal → Prop
   | [], [] => True
-  | f :: fs, l :: ls => (if f.phase = .early then RelVal reg memo f.val l else l = .pending) ∧ InitValsC reg memo fs ls
+  | f :: fs, l :: ls =>
+    (if f.phase = .early then RelV h reg st.heap st.memo h.length f.val l else l = .pending) ∧ InitValsC h reg st fs ls
   | _, _ => False
 
-theorem InitValsC.mono {reg : Reg} {m m' : List (Str × Nat)} (hle : MemoLe m m') :
-    ∀ {fs : List Field} {ls : List LVal}, InitValsC reg m fs ls → InitValsC reg m' fs ls
+theorem InitValsC.mono {h : Heap} {reg : Reg} {st st' : LState} (hle : RelPres h reg st st') :
+    ∀ {fs : List Field} {ls : List LVal}, InitValsC h reg st fs ls → InitValsC h reg st' fs ls
   | [], [], _ => trivial
-  | _ :: _, [], h => by simp [InitValsC] at h
-  | [], _ :: _, h => by simp [InitValsC] at h
-  | f :: _, _ :: _, h => by
-    refine ⟨?_, InitValsC.mono hle h.2⟩
-    have h1 := h.1
+  | _ :: _, [], h0 => by simp [InitValsC] at h0
+  | [], _ :: _, h0 => by simp [InitValsC] at h0
+  | f :: _, _ :: _, h0 => by
+    refine ⟨?_, InitValsC.mono hle h0.2⟩
+    have h1 := h0.1
     by_cases hp : f.phase = .early
-    · simp only [hp, if_true] at h1 ⊢; exact RelVal.mono hle h1
+    · simp only [hp, if_true] at h1 ⊢; exact hle _ _ _ h1
     · simpa [hp] using h1
 
 /-- values of the fields the late loop has passed: everything but callback fields is resolved -/
-def DoneVals (reg : Reg) (memo : List (Str × Nat)) : List Field → List LVal → Prop
+def DoneVals (h : Heap) (reg : Reg) (st : LState) : List Field → List LVal → Prop
   | [], [] => True
-  | f :: fs, l :: ls => (if f.phase = .cb then l = .pending else RelVal reg memo f.val l) ∧ DoneVals reg memo fs ls
+  | f :: fs, l :: ls =>
+    (if f.phase = .cb then l = .pending else RelV h reg st.heap st.memo h.length f.val l) ∧ DoneVals h reg st fs ls
   | _, _ => False
 
-theorem DoneVals.mono {reg : Reg} {m m' : List (Str × Nat)} (hle : MemoLe m m') :
-    ∀ {fs : List Field} {ls : List LVal}, DoneVals reg m fs ls → DoneVals reg m' fs ls
+theorem DoneVals.mono {h : Heap} {reg : Reg} {st st' : LState} (hle : RelPres h reg st st') :
+    ∀ {fs : List Field} {ls : List LVal}, DoneVals h reg st fs ls → DoneVals h reg st' fs ls
   | [], [], _ => trivial
-  | _ :: _, [], h => by simp [DoneVals] at h
-  | [], _ :: _, h => by simp [DoneVals] at h
-  | f :: _, _ :: _, h => by
-    refine ⟨?_, DoneVals.mono hle h.2⟩
-    have h1 := h.1
+  | _ :: _, [], h0 => by simp [DoneVals] at h0
+  | [], _ :: _, h0 => by simp [DoneVals] at h0
+  | f :: _, _ :: _, h0 => by
+    refine ⟨?_, DoneVals.mono hle h0.2⟩
+    have h1 := h0.1
     by_cases hp : f.phase = .cb
     · simpa [hp] using h1
-    · simp only [hp, if_false] at h1 ⊢; exact RelVal.mono hle h1
+    · simp only [hp, if_false] at h1 ⊢; exact hle _ _ _ h1
 
-theorem doneVals_append {reg : Reg} {memo : List (Str × Nat)} : ∀ {fs : List Field} {ls : List LVal} {f : Field} {l : LVal},
-    DoneVals reg memo fs ls → (if f.phase = .cb then l = .pending else RelVal reg memo f.val l) →
-    DoneVals reg memo (fs ++ [f]) (ls ++ [l])
+theorem doneVals_append {h : Heap} {reg : Reg} {st : LState} : ∀ {fs : List Field} {ls : List LVal} {f : Field} {l : LVal},
+    DoneVals h reg st fs ls → (if f.phase = .cb then l = .pending else RelV h reg st.heap st.memo h.length f.val l) →
+    DoneVals h reg st (fs ++ [f]) (ls ++ [l])
   | [], [], _, _, _, h2 => ⟨h2, trivial⟩
   | _ :: _, [], _, _, h1, _ => by simp [DoneVals] at h1
   | [], _ :: _, _, _, h1, _ => by simp [DoneVals] at h1
   | _ :: _, _ :: _, _, _, h1, h2 => ⟨h1.1, doneVals_append h1.2 h2⟩
 
-theorem doneVals_length {reg : Reg} {memo : List (Str × Nat)} : ∀ {fs : List Field} {ls : List LVal},
-    DoneVals reg memo fs ls → fs.length = ls.length
+theorem doneVals_length {h : Heap} {reg : Reg} {st : LState} : ∀ {fs : List Field} {ls : List LVal},
+    DoneVals h reg st fs ls → fs.length = ls.length
   | [], [], _ => rfl
-  | _ :: _, [], h => by simp [DoneVals] at h
-  | [], _ :: _, h => by simp [DoneVals] at h
+  | _ :: _, [], h0 => by simp [DoneVals] at h0
+  | [], _ :: _, h0 => by simp [DoneVals] at h0
   | _ :: _, _ :: _, h => by simp [doneVals_length h.2]
 
 /-- entries produced by `cbSources` -/
@@ -153,74 +161,159 @@ theorem cbSources_mem (i : Nat) : ∀ (flds : List (Phase × JVal)) (k0 : Nat) (
 
 /-! ### setting -/
 
-structure CtxC (h : Heap) (main : Nat) (reg : Reg) (T : Table) (rank : Nat → Nat) : Prop where
+structure CtxC (h : Heap) (main : Nat) (reg : Reg) (T : Table) (rank idep : Nat → Nat) : Prop where
   regOk : RegOk main reg
-  tbl : ∀ o n, (o, n) ∈ reg → ∃ ob, h[o]? = some ob ∧ lookupRec T n = some (encObj reg ob) ∧ RefsIn reg ob.fields
-  noOwn : NoOwn h
+  tbl : ∀ o n, (o, n) ∈ reg → ∃ ob, h[o]? = some ob ∧ lookupRec T n = some (encObj h reg ob) ∧ RefsIn h reg h.length ob.fields
   /-- a generator loader never gets its callback registered: such classes are excluded -/
   noGenCb : ∀ ob ∈ h, (∃ f ∈ ob.fields, f.phase = .late) → ∀ f ∈ ob.fields, f.phase ≠ .cb
-  rkEarly : ∀ o ob, h[o]? = some ob → ∀ f ∈ ob.fields, f.phase = .early → ∀ p, f.val = .ref p → rank p < rank o
-  rkLate : ∀ o ob, h[o]? = some ob → ∀ f ∈ ob.fields, f.phase = .late → ∀ p, f.val = .ref p → rank p ≤ rank o
+  rkEarly : ∀ o ob, h[o]? = some ob → ∀ f ∈ ob.fields, f.phase = .early → ∀ p, f.val.target = some p → rank p < rank o
+  rkLate : ∀ o ob, h[o]? = some ob → ∀ f ∈ ob.fields, f.phase = .late → ∀ p, f.val.target = some p → rank p ≤ rank o
+  depth : ∀ o, o < h.length → idep o ≤ h.length
+  /-- inline edges strictly decrease `idep` and are never read in a callback -/
+  edge : ∀ (o : Nat) (ob : Obj), h[o]? = some ob → ∀ f ∈ ob.fields, ∀ p, f.val = Val.own p → idep p < idep o ∧ f.phase ≠ .cb
+  inlEarly : ∀ (o : Nat) (ob : Obj), h[o]? = some ob → ∀ f ∈ ob.fields, ∀ p, f.val = Val.own p → ∀ obp : Obj, h[p]? = some obp →
+    ∀ x ∈ obp.fields, x.phase = .early
 
 section
-variable {h : Heap} {main : Nat} {reg : Reg} {T : Table} {rank : Nat → Nat}
+variable {h : Heap} {main : Nat} {reg : Reg} {T : Table} {rank idep : Nat → Nat}
 
 def LoadsOkC (h : Heap) (reg : Reg) (T : Table) (prog : List Str) (fuel : Nat) (st : LState) (n : Str) : Prop :=
   ∃ st' i, object T fuel st (.str n) = (st', .ok (.ref i)) ∧ LInvC h reg prog st' ∧ LExtC st st' ∧
     lookupMemo st'.memo n = some i
 
 /-- induction hypothesis for the children: they are only ever loaded while something is under construction -/
-def ChildOkC (h : Heap) (reg : Reg) (T : Table) (rank : Nat → Nat) (prog : List Str) (fuel : Nat) : Prop :=
-  ∀ p m, (p, m) ∈ reg → ∀ st, LInvC h reg prog st → st.working ≠ [] →
-    (∀ w ∈ st.working, ∃ q, (q, w) ∈ reg ∧ rank p < rank q) → todo reg st + 1 < fuel →
-    LoadsOkC h reg T prog fuel st m
+def ChildOkC (h : Heap) (reg : Reg) (T : Table) (rank : Nat → Nat) (prog : List Str) (F : Nat) : Prop :=
+  ∀ f, f ≤ F → ∀ p m, (p, m) ∈ reg → ∀ st, LInvC h reg prog st → st.working ≠ [] →
+    (∀ w ∈ st.working, ∃ q, (q, w) ∈ reg ∧ rank p < rank q) → budget h reg st < f →
+    LoadsOkC h reg T prog f st m
 
-theorem resolve_value_c (C : CtxC h main reg T rank) (ob : Obj) (hobm : ob ∈ h)
-    (hrefs : RefsIn reg ob.fields) (f' : Nat) (prog : List Str) (g : Field) (hg : g ∈ ob.fields)
+theorem linvC_alloc {prog : List Str} {st : LState} (hinv : LInvC h reg prog st) (x : LObj) :
+    LInvC h reg prog { st with heap := st.heap ++ [x] } ∧ SLe st { st with heap := st.heap ++ [x] } := by
+  have hle : SLe st { st with heap := st.heap ++ [x] } :=
+    ⟨MemoLe.refl _, heapLe_append _ _, fun _ he => Or.inl he⟩
+  refine ⟨⟨hinv.keysNodup, hinv.valsNodup, hinv.disj, ?_, ?_, ?_⟩, hle⟩
+  · intro e he
+    have := hinv.bound e he
+    simp only [List.length_append, List.length_cons, List.length_nil]; omega
+  · intro e he
+    exact (hinv.pendOk e he).mono (MemoLe.refl _)
+  · intro e he hnp
+    exact (hinv.good e he hnp).le hle (fun _ x => x) (fun _ x => x)
+
+theorem budget_extC {st st1 : LState} (ext1 : LExtC st st1) : budget h reg st1 ≤ budget h reg st :=
+  budget_le (todo_mono ext1.memo ext1.work)
+
+/-- the generic interface for inlined sub-trees, instantiated for the callback development: something
+is under construction (`W0 ≠ []`), so no callback is tried when an inlined record has been loaded -/
+theorem ownCtx_cb (C : CtxC h main reg T rank idep) (prog : List Str) (F : Nat)
+    (IHc : ChildOkC h reg T rank prog F) (W0 : List Str) (hW0 : W0 ≠ []) (B : Nat)
+    (hW : ∀ w ∈ W0, ∃ q, (q, w) ∈ reg ∧ B ≤ rank q) (hF : 2 * h.length + 2 ≤ F) :
+    OwnCtx h reg T (fun st => LInvC h reg prog st ∧ st.working = W0 ∧ budget h reg st + h.length < F)
+      (fun a b => LExtC a b)
+      (fun f q => f ≤ F ∧ F ≤ f + h.length ∧ rank q < B)
+      (fun f p => f ≤ F ∧ F + idep p + 1 ≤ f + h.length ∧ rank p ≤ B ∧
+        ∀ obp, h[p]? = some obp → ∀ x ∈ obp.fields, x.phase = .early) where
+  refl := LExtC.refl
+  trans := LExtC.trans
+  le := fun e => e.le
+  bound := fun hi e he => hi.1.bound e he
+  alloc := by
+    intro st hi x
+    obtain ⟨h1, h2⟩ := linvC_alloc hi.1 x
+    exact ⟨⟨h1, hi.2.1, hi.2.2⟩, ⟨h2, rfl, fun _ y => y, fun _ y => y⟩⟩
+  idle := by
+    intro st hi obj
+    unfold tryCallbacksIfIdle
+    cases hw : st.working with
+    | nil => exact absurd (hi.2.1 ▸ hw) hW0
+    | cons a r => rfl
+  fuel2 := fun hA => by omega
+  stepOwn := by
+    intro f p ob g p' hA hob hg hv
+    have h1 := (C.edge p ob hob g hg p' hv).1
+    have h2 := C.rkEarly p ob hob g hg (hA.2.2.2 ob hob g hg) p' (by rw [hv]; rfl)
+    exact ⟨by omega, by omega, by omega, fun obp hobp => C.inlEarly p ob hob g hg p' hv obp hobp⟩
+  stepRef := by
+    intro f p ob g q hA hob hg hv
+    have h2 := C.rkEarly p ob hob g hg (hA.2.2.2 ob hob g hg) q (by rw [hv]; rfl)
+    exact ⟨by omega, by omega, by omega⟩
+  child := by
+    intro f q m hA hqm st hi
+    obtain ⟨st', i, h1, h2, h3, h4⟩ := IHc f hA.1 q m hqm st hi.1 (by rw [hi.2.1]; exact hW0) (by
+      intro w hw
+      rw [hi.2.1] at hw
+      obtain ⟨q', hq1, hq2⟩ := hW w hw
+      exact ⟨q', hq1, by omega⟩) (by omega)
+    refine ⟨st', i, h1, ⟨h2, by rw [h3.work, hi.2.1], ?_⟩, h3, h4⟩
+    have := budget_extC (h := h) (reg := reg) h3
+    omega
+  inlEarly := fun {o ob g p obp} hob hg hv hobp => C.inlEarly o ob hob g hg p hv obp hobp
+
+theorem resolve_value_c (C : CtxC h main reg T rank idep) (o : Nat) (ob : Obj) (hob : h[o]? = some ob)
+    (hrefs : RefsIn h reg h.length ob.fields) (f' : Nat) (prog : List Str) (g : Field) (hg : g ∈ ob.fields)
     (IHc : ChildOkC h reg T rank prog (f' + 1))
     (st : LState) (hinv : LInvC h reg prog st) (hbusy : st.working ≠ [])
+    (hgo : ∀ p, g.val.target = some p → rank p ≤ rank o)
     (hw : ∀ p, g.val = .ref p → ∀ w ∈ st.working, ∃ q, (q, w) ∈ reg ∧ rank p < rank q)
-    (hfuel : todo reg st + 1 < f' + 1) :
-    ∃ st1 v, object T (f' + 1) st (encVal reg g.val) = (st1, .ok v) ∧ LInvC h reg prog st1 ∧ LExtC st st1 ∧
-      RelVal reg st1.memo g.val v := by
+    (hwo : ∀ w ∈ st.working, ∃ q, (q, w) ∈ reg ∧ rank o ≤ rank q)
+    (hfuel : budget h reg st + h.length < f' + 1) :
+    ∃ st1 v, object T (f' + 1) st (encVal h reg h.length g.val) = (st1, .ok v) ∧ LInvC h reg prog st1 ∧ LExtC st st1 ∧
+      RelV h reg st1.heap st1.memo h.length g.val v := by
+  have hrg : RefsInV h reg h.length g.val := hrefs g hg
   cases hv : g.val with
-  | lit n => exact ⟨st, .lit n, rfl, hinv, LExtC.refl _, rfl⟩
+  | lit n => exact ⟨st, .lit n, by simp only [encVal, object], hinv, LExtC.refl _, by simp only [RelV]⟩
   | str s =>
-    refine ⟨st, .str s, ?_, hinv, LExtC.refl _, rfl⟩
+    refine ⟨st, .str s, ?_, hinv, LExtC.refl _, by simp only [RelV]⟩
     simp only [encVal, object, (literal_roundtrip s).1, if_true, (literal_roundtrip s).2]
   | ref p =>
-    obtain ⟨m, hm⟩ := hrefs g hg p hv
+    rw [hv] at hrg
+    simp only [RefsInV] at hrg
+    obtain ⟨m, hm⟩ := hrg
     have hpm : (p, m) ∈ reg := lookupName_some_mem hm
-    obtain ⟨st1, i, h1, h2, h3, h4⟩ := IHc p m hpm st hinv hbusy (hw p hv) hfuel
-    refine ⟨st1, .ref i, ?_, h2, h3, ⟨m, hm, h4⟩⟩
-    simp only [encVal, hm, Option.getD_some]; exact h1
-  | own p => exact absurd hv (C.noOwn ob hobm g hg p)
+    obtain ⟨st1, i, h1, h2, h3, h4⟩ := IHc (f' + 1) (Nat.le_refl _) p m hpm st hinv hbusy (hw p hv) (by omega)
+    refine ⟨st1, .ref i, ?_, h2, h3, ?_⟩
+    · simp only [encVal, hm, Option.getD_some]; exact h1
+    · simp only [RelV]; exact ⟨m, hm, h4⟩
+  | own p =>
+    rw [hv] at hrg
+    have hol : o < h.length := by
+      obtain ⟨hol, _⟩ := List.getElem?_eq_some_iff.mp hob; exact hol
+    have hd1 := C.depth o hol
+    have hd2 := (C.edge o ob hob g hg p hv).1
+    have hrk := hgo p (by rw [hv]; rfl)
+    have hbp := budget_pos h reg st
+    have X := ownCtx_cb C prog (f' + 1) IHc st.working hbusy (rank o) hwo (by omega)
+    obtain ⟨st1, j, h1, h2, h3, h4, _⟩ := load_own X h.length p (f' + 1) hrg
+      ⟨Nat.le_refl _, by omega, hrk, fun obp hobp => C.inlEarly o ob hob g hg p hv obp hobp⟩
+      (fun obp hobp => C.inlEarly o ob hob g hg p hv obp hobp) st ⟨hinv, rfl, hfuel⟩
+    exact ⟨st1, .own j, h1, h2.1, h3, h4⟩
 
-theorem resolve_early_c (C : CtxC h main reg T rank) (o : Nat) (ob : Obj) (hob : h[o]? = some ob)
-    (hrefs : RefsIn reg ob.fields) (f' : Nat) (prog : List Str)
+theorem resolve_early_c (C : CtxC h main reg T rank idep) (o : Nat) (ob : Obj) (hob : h[o]? = some ob)
+    (hrefs : RefsIn h reg h.length ob.fields) (f' : Nat) (prog : List Str)
     (IHc : ChildOkC h reg T rank prog (f' + 1)) :
     ∀ (fs : List Field), (∀ g ∈ fs, g ∈ ob.fields) → ∀ (st : LState), LInvC h reg prog st → st.working ≠ [] →
-      (∀ w ∈ st.working, ∃ q, (q, w) ∈ reg ∧ rank o ≤ rank q) → todo reg st + 1 < f' + 1 →
-      ∃ st' vals, resolvePhase (object T (f' + 1)) .early st (encFields reg fs) = (st', .ok vals) ∧
-        LInvC h reg prog st' ∧ LExtC st st' ∧ InitValsC reg st'.memo fs vals
+      (∀ w ∈ st.working, ∃ q, (q, w) ∈ reg ∧ rank o ≤ rank q) → budget h reg st + h.length < f' + 1 →
+      ∃ st' vals, resolvePhase (object T (f' + 1)) .early st (encFields h reg h.length fs) = (st', .ok vals) ∧
+        LInvC h reg prog st' ∧ LExtC st st' ∧ InitValsC h reg st' fs vals
   | [], _, st, hinv, _, _, _ => ⟨st, [], rfl, hinv, LExtC.refl _, trivial⟩
   | g :: fs, hsub, st, hinv, hbusy, hw, hfuel => by
     have hg : g ∈ ob.fields := hsub g List.mem_cons_self
     have hsub' : ∀ x ∈ fs, x ∈ ob.fields := fun x hx => hsub x (List.mem_cons_of_mem _ hx)
     by_cases hph : g.phase = .early
-    · have hrk : ∀ p, g.val = .ref p → rank p < rank o := C.rkEarly o ob hob g hg hph
-      obtain ⟨st1, v, e1, inv1, ext1, rel1⟩ := resolve_value_c C ob (List.mem_of_getElem? hob) hrefs f' prog g hg IHc st hinv hbusy
+    · have hrk : ∀ p, g.val.target = some p → rank p < rank o := C.rkEarly o ob hob g hg hph
+      obtain ⟨st1, v, e1, inv1, ext1, rel1⟩ := resolve_value_c C o ob hob hrefs f' prog g hg IHc st hinv hbusy
+        (fun p hp => by have := hrk p hp; omega)
         (fun p hp w hwm => by
-          obtain ⟨q, hq1, hq2⟩ := hw w hwm; have := hrk p hp; exact ⟨q, hq1, by omega⟩) hfuel
-      have hfuel1 : todo reg st1 + 1 < f' + 1 := by
-        have := todo_mono (reg := reg) ext1.memo ext1.work; omega
+          obtain ⟨q, hq1, hq2⟩ := hw w hwm; have := hrk p (by rw [hp]; rfl); exact ⟨q, hq1, by omega⟩) hw hfuel
+      have hfuel1 : budget h reg st1 + h.length < f' + 1 := by
+        have := budget_extC (h := h) (reg := reg) ext1; omega
       obtain ⟨st2, vs, e2, inv2, ext2, rel2⟩ := resolve_early_c C o ob hob hrefs f' prog IHc fs hsub' st1 inv1
         (by rw [ext1.work]; exact hbusy) (by rw [ext1.work]; exact hw) hfuel1
       refine ⟨st2, v :: vs, ?_, inv2, ext1.trans ext2, ⟨?_, rel2⟩⟩
       · simp only [encFields, List.map_cons, resolvePhase, hph, if_true]
         simp only [encFields] at e2
         rw [e1]; simp only [e2]
-      · simp only [hph, if_true]; exact RelVal.mono ext2.memo rel1
+      · simp only [hph, if_true]; exact RelV.le ext2.le rel1
     · obtain ⟨st2, vs, e2, inv2, ext2, rel2⟩ := resolve_early_c C o ob hob hrefs f' prog IHc fs hsub' st hinv hbusy hw hfuel
       refine ⟨st2, .pending :: vs, ?_, inv2, ext2, ⟨?_, rel2⟩⟩
       · simp only [encFields, List.map_cons, resolvePhase, hph, if_false]
@@ -234,29 +327,34 @@ structure LateExtC (i : Nat) (st st' : LState) : Prop where
   work : st'.working = st.working
   len : st.heap.length ≤ st'.heap.length
   others : ∀ j, j < st.heap.length → j ≠ i → st'.heap[j]? = st.heap[j]?
+  fresh : ∀ e ∈ st'.memo, e ∈ st.memo ∨ st.heap.length ≤ e.2
   pend : ∀ e ∈ st.pend, e ∈ st'.pend
   cbs : ∀ c ∈ st.callbacks, c ∈ st'.callbacks
 
 theorem LateExtC.refl (i : Nat) (st : LState) : LateExtC i st st :=
-  ⟨MemoLe.refl _, rfl, Nat.le_refl _, fun _ _ _ => rfl, fun _ h => h, fun _ h => h⟩
+  ⟨MemoLe.refl _, rfl, Nat.le_refl _, fun _ _ _ => rfl, fun _ he => Or.inl he, fun _ h => h, fun _ h => h⟩
 theorem LateExtC.trans {i : Nat} {a b c : LState} (h1 : LateExtC i a b) (h2 : LateExtC i b c) : LateExtC i a c :=
   ⟨h1.memo.trans h2.memo, by rw [h2.work, h1.work], Nat.le_trans h1.len h2.len,
    fun j hj hji => by rw [h2.others j (Nat.lt_of_lt_of_le hj h1.len) hji, h1.others j hj hji],
+   fun e he => by
+    rcases h2.fresh e he with x | x
+    · exact h1.fresh e x
+    · exact Or.inr (Nat.le_trans h1.len x),
    fun e he => h2.pend e (h1.pend e he), fun x hx => h2.cbs x (h1.cbs x hx)⟩
-theorem LateExtC.of_ext {i : Nat} {a b : LState} (h : LExtC a b) : LateExtC i a b :=
-  ⟨h.memo, h.work, h.heap.1, fun j hj _ => h.heap.2 j hj, h.pend, h.cbs⟩
+theorem LateExtC.of_ext {i : Nat} {a b : LState} (h0 : LExtC a b) : LateExtC i a b :=
+  ⟨h0.memo, h0.work, h0.heap.1, fun j hj _ => h0.heap.2 j hj, h0.le.fresh, h0.pend, h0.cbs⟩
 
-theorem initValsC_nil {reg : Reg} {memo : List (Str × Nat)} {lb : List LVal} (h : InitValsC reg memo [] lb) : lb = [] := by
+theorem initValsC_nil {st : LState} {lb : List LVal} (h0 : InitValsC h reg st [] lb) : lb = [] := by
   cases lb with
   | nil => rfl
-  | cons _ _ => simp [InitValsC] at h
+  | cons _ _ => simp [InitValsC] at h0
 
-theorem initValsC_cons {reg : Reg} {memo : List (Str × Nat)} {g : Field} {fs : List Field} {lb : List LVal}
-    (h : InitValsC reg memo (g :: fs) lb) : ∃ l lb', lb = l :: lb' ∧
-      (if g.phase = .early then RelVal reg memo g.val l else l = .pending) ∧ InitValsC reg memo fs lb' := by
+theorem initValsC_cons {st : LState} {g : Field} {fs : List Field} {lb : List LVal}
+    (h0 : InitValsC h reg st (g :: fs) lb) : ∃ l lb', lb = l :: lb' ∧
+      (if g.phase = .early then RelV h reg st.heap st.memo h.length g.val l else l = .pending) ∧ InitValsC h reg st fs lb' := by
   cases lb with
-  | nil => simp [InitValsC] at h
-  | cons l lb' => exact ⟨l, lb', rfl, h.1, h.2⟩
+  | nil => simp [InitValsC] at h0
+  | cons l lb' => exact ⟨l, lb', rfl, h0.1, h0.2⟩
 
 theorem setField_inv_c {prog : List Str} {st : LState} {n : Str} {i : Nat} (k : Nat) (v : LVal)
     (hinv : LInvC h reg (n :: prog) st) (hmem : lookupMemo st.memo n = some i) :
@@ -274,20 +372,21 @@ theorem setField_inv_c {prog : List Str} {st : LState} {n : Str} {i : Nat} (k : 
       rw [heq, nameOfIdx_of_mem hinv.valsNodup m2] at n1
       exact hnp (by rw [← Option.some.inj n1]; exact List.mem_cons_self)
     refine ⟨by simp only [setField, List.length_modify]; exact hlt, o', ob', lo', a1, a2, ?_, a4,
-      CellVals.mono (st := st) (st' := { st with heap := setField st.heap i k v }) (MemoLe.refl _) (fun _ hx => hx) (fun _ hx => hx) a5⟩
+      CellVals.mono (st := st) (st' := { st with heap := setField st.heap i k v })
+        (relPres_setField st (mem_snd_of_lookup hmem) k v) (fun _ hx => hx) (fun _ hx => hx) a5⟩
     simp only [setField, List.getElem?_modify, a3, Option.map_eq_map, Option.map_some, Ne.symm hne, if_false]
 
-theorem late_loop_c (C : CtxC h main reg T rank) (o : Nat) (ob : Obj) (hob : h[o]? = some ob)
-    (hrefs : RefsIn reg ob.fields) (f' : Nat) (prog : List Str) (n : Str) (i : Nat) (cls : Nat)
+theorem late_loop_c (C : CtxC h main reg T rank idep) (o : Nat) (ob : Obj) (hob : h[o]? = some ob)
+    (hrefs : RefsIn h reg h.length ob.fields) (f' : Nat) (prog : List Str) (n : Str) (i : Nat) (cls : Nat)
     (IHl : ChildOkC h reg T rank (n :: prog) (f' + 1)) :
     ∀ (rest pre : List Field), pre ++ rest = ob.fields → ∀ (st : LState) (la lb : List LVal),
       LInvC h reg (n :: prog) st → st.heap[i]? = some { cls := cls, fields := la ++ lb } →
-      DoneVals reg st.memo pre la → InitValsC reg st.memo rest lb → lookupMemo st.memo n = some i →
+      DoneVals h reg st pre la → InitValsC h reg st rest lb → lookupMemo st.memo n = some i →
       ((∃ g ∈ rest, g.phase = .late) → st.working ≠ []) →
-      (∀ w ∈ st.working, ∃ q, (q, w) ∈ reg ∧ rank o < rank q) → todo reg st + 1 < f' + 1 →
-      ∃ st' ls', latePhase (object T (f' + 1)) i st pre.length (encFields reg rest) = (st', .ok ()) ∧
+      (∀ w ∈ st.working, ∃ q, (q, w) ∈ reg ∧ rank o < rank q) → budget h reg st + h.length < f' + 1 →
+      ∃ st' ls', latePhase (object T (f' + 1)) i st pre.length (encFields h reg h.length rest) = (st', .ok ()) ∧
         LInvC h reg (n :: prog) st' ∧ LateExtC i st st' ∧ st'.heap[i]? = some { cls := cls, fields := ls' } ∧
-        DoneVals reg st'.memo ob.fields ls' ∧ lookupMemo st'.memo n = some i
+        DoneVals h reg st' ob.fields ls' ∧ lookupMemo st'.memo n = some i
   | [], pre, hsplit, st, la, lb, hinv, hcell, hla, hlb, hmem, _, _, _ => by
     have : lb = [] := initValsC_nil hlb
     subst this
@@ -306,15 +405,18 @@ theorem late_loop_c (C : CtxC h main reg T rank) (o : Nat) (ob : Obj) (hob : h[o
       simp only [hne, if_false] at hl
       subst hl
       have hb : st.working ≠ [] := hbusy ⟨g, List.mem_cons_self, hph⟩
-      obtain ⟨st1, v, e1, inv1, ext1, rel1⟩ := resolve_value_c C ob (List.mem_of_getElem? hob) hrefs f' (n :: prog) g hg IHl st hinv hb
+      obtain ⟨st1, v, e1, inv1, ext1, rel1⟩ := resolve_value_c C o ob hob hrefs f' (n :: prog) g hg IHl st hinv hb
+        (fun p hp => C.rkLate o ob hob g hg hph p hp)
         (fun p hp w hwm => by
           obtain ⟨q, hq1, hq2⟩ := hw w hwm
-          have := C.rkLate o ob hob g hg hph p hp
-          exact ⟨q, hq1, by omega⟩) hfuel
+          have := C.rkLate o ob hob g hg hph p (by rw [hp]; rfl)
+          exact ⟨q, hq1, by omega⟩)
+        (fun w hwm => by obtain ⟨q, hq1, hq2⟩ := hw w hwm; exact ⟨q, hq1, by omega⟩) hfuel
       have hmem1 : lookupMemo st1.memo n = some i := ext1.memo _ _ hmem
       have hcell1 : st1.heap[i]? = some { cls := cls, fields := la ++ LVal.pending :: lb' } := ext1.heap.get hcell
       let st2 : LState := { st1 with heap := setField st1.heap i pre.length v }
       have inv2 : LInvC h reg (n :: prog) st2 := setField_inv_c pre.length v inv1 hmem1
+      have pres12 : RelPres h reg st1 st2 := relPres_setField st1 (mem_snd_of_lookup hmem1) pre.length v
       have hcell2 : st2.heap[i]? = some { cls := cls, fields := (la ++ [v]) ++ lb' } := by
         simp only [st2, setField, List.getElem?_modify, hcell1, Option.map_eq_map, Option.map_some, if_true]
         congr 2
@@ -322,16 +424,16 @@ theorem late_loop_c (C : CtxC h main reg T rank) (o : Nat) (ob : Obj) (hob : h[o
       have ext12 : LateExtC i st1 st2 :=
         ⟨MemoLe.refl _, rfl, by simp [st2, setField], fun j _ hji => by
           simp only [st2, setField, List.getElem?_modify, Ne.symm hji, if_false]
-          cases st1.heap[j]? <;> rfl, fun _ he => he, fun _ hx => hx⟩
-      have hfuel2 : todo reg st2 + 1 < f' + 1 := by
-        have := todo_mono (reg := reg) ext1.memo ext1.work
-        have e : todo reg st2 = todo reg st1 := rfl
+          cases st1.heap[j]? <;> rfl, fun _ he => Or.inl he, fun _ he => he, fun _ hx => hx⟩
+      have hfuel2 : budget h reg st2 + h.length < f' + 1 := by
+        have := budget_extC (h := h) (reg := reg) ext1
+        have e : budget h reg st2 = budget h reg st1 := rfl
         omega
       have hcb : ¬ g.phase = .cb := by rw [hph]; decide
       obtain ⟨st', ls', e', inv', ext', cell', rel', mem'⟩ := late_loop_c C o ob hob hrefs f' prog n i cls IHl rest (pre ++ [g]) hsplit'
         st2 (la ++ [v]) lb' inv2 hcell2
-        (doneVals_append (DoneVals.mono ext1.memo hla) (by simp only [hcb, if_false]; exact rel1))
-        (InitValsC.mono ext1.memo hlb') hmem1
+        (doneVals_append (DoneVals.mono pres12 (DoneVals.mono ext1.le.relPres hla)) (by simp only [hcb, if_false]; exact pres12 _ _ _ rel1))
+        (InitValsC.mono pres12 (InitValsC.mono ext1.le.relPres hlb')) hmem1
         (by intro hx; have := hbusy' hx; simp only [st2]; rw [ext1.work]; exact this)
         (by intro w hwm; exact hw w (by rw [← ext1.work]; exact hwm)) hfuel2
       refine ⟨st', ls', ?_, inv', ((LateExtC.of_ext ext1).trans ext12).trans ext', cell', rel', mem'⟩
@@ -342,7 +444,7 @@ theorem late_loop_c (C : CtxC h main reg T rank) (o : Nat) (ob : Obj) (hob : h[o
       exact e'
     · have hcell2 : st.heap[i]? = some { cls := cls, fields := (la ++ [l]) ++ lb' } := by
         rw [hcell]; simp
-      have hdone : (if g.phase = .cb then l = .pending else RelVal reg st.memo g.val l) := by
+      have hdone : (if g.phase = .cb then l = .pending else RelV h reg st.heap st.memo h.length g.val l) := by
         by_cases hcb : g.phase = .cb
         · have hne : ¬ g.phase = .early := by rw [hcb]; decide
           simp only [hne, if_false] at hl
@@ -364,39 +466,39 @@ theorem late_loop_c (C : CtxC h main reg T rank) (o : Nat) (ob : Obj) (hob : h[o
 
 /-- from the late loop's result to the cell invariant, given that the callback fields were recorded -/
 theorem cellVals_of_done {st : LState} {c : Nat} : ∀ (k0 : Nat) (fs : List Field) (ls : List LVal),
-    DoneVals reg st.memo fs ls →
-    (∀ k f, fs[k]? = some f → f.phase = .cb → (c, k0 + k, encVal reg f.val) ∈ st.pend ∧ c ∈ st.callbacks) →
-    CellVals reg st c k0 fs ls
+    DoneVals h reg st fs ls →
+    (∀ k f, fs[k]? = some f → f.phase = .cb → (c, k0 + k, encVal h reg h.length f.val) ∈ st.pend ∧ c ∈ st.callbacks) →
+    CellVals h reg st c k0 fs ls
   | _, [], [], _, _ => trivial
-  | _, _ :: _, [], h, _ => by simp [DoneVals] at h
-  | _, [], _ :: _, h, _ => by simp [DoneVals] at h
-  | k0, f :: fs, l :: ls, h, hcb => by
-    refine ⟨?_, cellVals_of_done (k0 + 1) fs ls h.2 (fun k g hk hg => by
+  | _, _ :: _, [], h0, _ => by simp [DoneVals] at h0
+  | _, [], _ :: _, h0, _ => by simp [DoneVals] at h0
+  | k0, f :: fs, l :: ls, h0, hcb => by
+    refine ⟨?_, cellVals_of_done (k0 + 1) fs ls h0.2 (fun k g hk hg => by
       have := hcb (k + 1) g (by simpa using hk) hg
       have e : k0 + (k + 1) = k0 + 1 + k := by omega
       rw [e] at this; exact this)⟩
-    have h1 := h.1
+    have h1 := h0.1
     by_cases hp : f.phase = .cb
     · simp only [hp, if_true] at h1 ⊢
       have := hcb 0 f (by simp) hp
       exact ⟨h1, by simpa using this.1, this.2⟩
     · simp only [hp, if_false] at h1 ⊢; exact h1
 
-theorem encFields_get (fs : List Field) (k : Nat) :
-    (encFields reg fs)[k]? = (fs[k]?).map (fun f => (f.phase, encVal reg f.val)) := by
+theorem encFields_get (d : Nat) (fs : List Field) (k : Nat) :
+    (encFields h reg d fs)[k]? = (fs[k]?).map (fun f => (f.phase, encVal h reg d f.val)) := by
   simp [encFields]
 
 /-- **One loader call** for a registered name: early phase, allocation, registration (of the object and,
 for a plain loader with callback fields, of its callback), late phase. -/
-theorem loadRec_named_ok (C : CtxC h main reg T rank) (f' : Nat) (prog : List Str) (o : Nat) (n : Str)
-    (hon : (o, n) ∈ reg) (ob : Obj) (hob : h[o]? = some ob) (hrefs : RefsIn reg ob.fields)
+theorem loadRec_named_ok (C : CtxC h main reg T rank idep) (f' : Nat) (prog : List Str) (o : Nat) (n : Str)
+    (hon : (o, n) ∈ reg) (ob : Obj) (hob : h[o]? = some ob) (hrefs : RefsIn h reg h.length ob.fields)
     (st : LState) (hinv : LInvC h reg prog st) (hmemo : lookupMemo st.memo n = none) (hnw : n ∉ st.working)
     (hw : ∀ w ∈ st.working, ∃ q, (q, w) ∈ reg ∧ rank o < rank q)
-    (hfuel : todo reg st + 1 < f' + 1 + 1)
+    (hfuel : budget h reg st < f' + 1 + 1)
     (hlateIdle : (∃ g ∈ ob.fields, g.phase = .late) → st.working ≠ [])
     (ih : ∀ prog, ChildOkC h reg T rank prog (f' + 1)) :
     ∃ st4 i, loadRec (object T (f' + 1)) (some n) { st with working := n :: st.working } ob.cls
-        (encFields reg ob.fields) = (st4, .ok i) ∧
+        (encFields h reg h.length ob.fields) = (st4, .ok i) ∧
       LInvC h reg prog st4 ∧ LExtC st st4 ∧ lookupMemo st4.memo n = some i := by
   have hobm : ob ∈ h := List.mem_of_getElem? hob
   let st1 : LState := { st with working := n :: st.working }
@@ -409,7 +511,7 @@ theorem loadRec_named_ok (C : CtxC h main reg T rank) (f' : Nat) (prog : List St
     · intro e he hnp
       obtain ⟨hlt, o', ob', lo', a1, a2, a3, a4, a5⟩ := hinv.good e he hnp
       exact ⟨hlt, o', ob', lo', a1, a2, a3, a4,
-        CellVals.mono (st := st) (st' := st1) (MemoLe.refl _) (fun _ x => x) (fun _ x => x) a5⟩
+        CellVals.mono (st := st) (st' := st1) (RelPres.refl (h := h) (reg := reg) st) (fun _ x => x) (fun _ x => x) a5⟩
   have hw1 : ∀ w ∈ st1.working, ∃ q, (q, w) ∈ reg ∧ rank o ≤ rank q := by
     intro w hwm
     rcases List.mem_cons.mp hwm with e | e
@@ -418,20 +520,26 @@ theorem loadRec_named_ok (C : CtxC h main reg T rank) (f' : Nat) (prog : List St
   have htodo1 : todo reg st1 < todo reg st :=
     todo_lt_of_new hon (MemoLe.refl _) (fun w hw' _ hmem => hw' (List.mem_cons_of_mem _ hmem)) hmemo hnw
       (Or.inr List.mem_cons_self)
+  have hb1 := budget_lt (h := h) htodo1
   obtain ⟨st2, vals, eres, inv2, ext2, rel2⟩ :=
     resolve_early_c C o ob hob hrefs f' prog (ih prog) ob.fields (fun _ hg => hg) st1 inv1 (by simp [st1]) hw1 (by omega)
   have hn2 : lookupMemo st2.memo n = none := by
     apply inv2.disj; rw [ext2.work]; exact List.mem_cons_self
   have hwork2 : st2.working = n :: st.working := ext2.work
   let i := st2.heap.length
-  let flds := encFields reg ob.fields
+  let flds := encFields h reg h.length ob.fields
   let regCb : Bool := flds.any (fun f => f.1 == .cb) && !flds.any (fun f => f.1 == .late)
   let st3 : LState :=
     { memo := (n, i) :: st2.memo, working := st.working,
       heap := st2.heap ++ [{ cls := ob.cls, fields := vals }],
       callbacks := if regCb then st2.callbacks ++ [i] else st2.callbacks,
       pend := if regCb then st2.pend ++ cbSources i 0 flds else st2.pend }
-  have hle : MemoLe st2.memo st3.memo := memoLe_cons i hn2
+  have hle : SLe st2 st3 := by
+    refine ⟨memoLe_cons i hn2, heapLe_append _ _, ?_⟩
+    intro e he
+    rcases List.mem_cons.mp he with e1 | e1
+    · right; rw [e1]; exact Nat.le_refl _
+    · exact Or.inl e1
   have hpend23 : ∀ e ∈ st2.pend, e ∈ st3.pend := by
     intro e he; simp only [st3]; split
     · exact List.mem_append_left _ he
@@ -462,7 +570,7 @@ theorem loadRec_named_ok (C : CtxC h main reg T rank) (f' : Nat) (prog : List St
       · subst e1; simp [i]
       · have := inv2.bound e e1; omega
     · intro e he
-      have hold : e ∈ st2.pend → PendOk h reg st3 e := fun h2 => (inv2.pendOk e h2).mono hle
+      have hold : e ∈ st2.pend → PendOk h reg st3 e := fun h2 => (inv2.pendOk e h2).mono hle.memo
       simp only [st3] at he
       split at he
       · rcases List.mem_append.mp he with h2 | h2
@@ -480,24 +588,23 @@ theorem loadRec_named_ok (C : CtxC h main reg T rank) (f' : Nat) (prog : List St
     · intro e he hnp
       rcases List.mem_cons.mp he with e1 | e1
       · subst e1; exact absurd List.mem_cons_self hnp
-      · obtain ⟨hlt, o', ob', lo', a1, a2, a3, a4, a5⟩ := inv2.good e e1 (fun hp => hnp (List.mem_cons_of_mem _ hp))
-        refine ⟨by simp only [st3, List.length_append, List.length_cons, List.length_nil]; omega,
-          o', ob', lo', a1, a2, ?_, a4, CellVals.mono hle hpend23 hcbs23 a5⟩
-        simp only [st3]; rw [List.getElem?_append_left hlt]; exact a3
+      · exact (inv2.good e e1 (fun hp => hnp (List.mem_cons_of_mem _ hp))).le hle hpend23 hcbs23
   have hcell3 : st3.heap[i]? = some { cls := ob.cls, fields := [] ++ vals } := by
     simp only [st3, i, List.nil_append]; exact heap_concat_get _ _
   have htodo3 : todo reg st3 < todo reg st :=
-    todo_lt_of_new hon (ext2.memo.trans hle) (fun w hw' _ => hw') hmemo hnw (Or.inl (by rw [hmem3]; rfl))
+    todo_lt_of_new hon (ext2.memo.trans hle.memo) (fun w hw' _ => hw') hmemo hnw (Or.inl (by rw [hmem3]; rfl))
+  have hb3 := budget_lt (h := h) htodo3
   obtain ⟨st4, ls', elate, inv4, ext4, cell4, done4, mem4⟩ :=
     late_loop_c C o ob hob hrefs f' prog n i ob.cls (ih (n :: prog))
-      ob.fields [] (by simp) st3 [] vals inv3 hcell3 trivial (InitValsC.mono hle rel2) hmem3 hlateIdle hw (by omega)
+      ob.fields [] (by simp) st3 [] vals inv3 hcell3 trivial (InitValsC.mono hle.relPres rel2) hmem3 hlateIdle hw (by omega)
   have hwork4 : st4.working = st.working := ext4.work
   -- the callback fields of the new object have been recorded
-  have hrec : ∀ k f, ob.fields[k]? = some f → f.phase = .cb → (i, 0 + k, encVal reg f.val) ∈ st4.pend ∧ i ∈ st4.callbacks := by
+  have hrec : ∀ k f, ob.fields[k]? = some f → f.phase = .cb →
+      (i, 0 + k, encVal h reg h.length f.val) ∈ st4.pend ∧ i ∈ st4.callbacks := by
     intro k f hk hfc
     have hany : flds.any (fun f => f.1 == .cb) = true := by
       rw [List.any_eq_true]
-      exact ⟨(f.phase, encVal reg f.val), List.mem_map.mpr ⟨f, List.mem_of_getElem? hk, rfl⟩, by simp [hfc]⟩
+      exact ⟨(f.phase, encVal h reg h.length f.val), List.mem_map.mpr ⟨f, List.mem_of_getElem? hk, rfl⟩, by simp [hfc]⟩
     have hnolate : flds.any (fun f => f.1 == .late) = false := by
       rw [List.any_eq_false]
       intro e he
@@ -531,19 +638,27 @@ theorem loadRec_named_ok (C : CtxC h main reg T rank) (f' : Nat) (prog : List St
         · exact hen e1
         · exact hnp e1)
   have ext04 : LExtC st st4 := by
-    refine ⟨(ext2.memo.trans hle).trans ext4.memo, ?_, hwork4,
-      fun e he => ext4.pend e (hpend23 e (ext2.pend e he)), fun c hc => ext4.cbs c (hcbs23 c (ext2.cbs c hc))⟩
     have h02 : HeapLe st.heap st2.heap := ext2.heap
-    refine ⟨by
-      have := h02.1; have := ext4.len
-      simp only [st3, List.length_append, List.length_cons, List.length_nil] at this; omega, ?_⟩
-    intro j hj
-    have hj2 : j < st2.heap.length := Nat.lt_of_lt_of_le hj h02.1
-    rw [ext4.others j (by simp only [st3, List.length_append, List.length_cons, List.length_nil]; omega)
-      (by simp only [i]; omega)]
-    simp only [st3]
-    rw [List.getElem?_append_left hj2]
-    exact h02.2 j hj
+    refine ⟨⟨(ext2.memo.trans hle.memo).trans ext4.memo, ?_, ?_⟩, hwork4,
+      fun e he => ext4.pend e (hpend23 e (ext2.pend e he)), fun c hc => ext4.cbs c (hcbs23 c (ext2.cbs c hc))⟩
+    · refine ⟨by
+        have := h02.1; have := ext4.len
+        simp only [st3, List.length_append, List.length_cons, List.length_nil] at this; omega, ?_⟩
+      intro j hj
+      have hj2 : j < st2.heap.length := Nat.lt_of_lt_of_le hj h02.1
+      rw [ext4.others j (by simp only [st3, List.length_append, List.length_cons, List.length_nil]; omega)
+        (by simp only [i]; omega)]
+      simp only [st3]
+      rw [List.getElem?_append_left hj2]
+      exact h02.2 j hj
+    · intro e he
+      rcases ext4.fresh e he with x | x
+      · rcases List.mem_cons.mp x with e1 | e1
+        · right; rw [e1]; exact h02.1
+        · exact ext2.le.fresh e e1
+      · right
+        have := h02.1
+        simp only [st3, List.length_append, List.length_cons, List.length_nil] at x; omega
   refine ⟨st4, i, ?_, inv4', ext04, mem4⟩
   show loadRec (object T (f' + 1)) (some n) st1 ob.cls flds = (st4, .ok i)
   unfold loadRec
@@ -567,10 +682,15 @@ theorem todo_pos_of_new {st : LState} {o : Nat} {n : Str} (hon : (o, n) ∈ reg)
   simp [List.mem_filter, hon, hmemo, hnw]
 
 /-- **Loading a registered name while something is under construction** (so no callback is tried). -/
-theorem load_named_cb (C : CtxC h main reg T rank) : ∀ (f : Nat) (prog : List Str), ChildOkC h reg T rank prog f
-  | 0, _ => by intro p m _ st _ _ _ hf; exact absurd hf (Nat.not_lt_zero _)
-  | f0 + 1, prog => by
-    intro o n hon st hinv hbusy hw hf
+theorem load_named_cb (C : CtxC h main reg T rank idep) : ∀ (F : Nat) (prog : List Str), ChildOkC h reg T rank prog F
+  | 0, _ => by intro f hf p m _ st _ _ _ hb; omega
+  | F + 1, prog => by
+    intro f hf
+    rcases Nat.lt_or_ge f (F + 1) with hlt | hge
+    · exact load_named_cb C F prog f (by omega)
+    have hfe : f = F + 1 := by omega
+    subst hfe
+    intro o n hon st hinv hbusy hw hfb
     have hlit : isLiteralStr n = false := C.regOk.notLiteral (o, n) hon
     unfold LoadsOkC
     cases hmemo : lookupMemo st.memo n with
@@ -586,13 +706,13 @@ theorem load_named_cb (C : CtxC h main reg T rank) : ∀ (f : Nat) (prog : List 
         have := C.regOk.obj_unique hon hq1
         subst this; omega
       have hcont : st.working.contains n = false := by simpa using hnw
-      have htodo := todo_pos_of_new hon hmemo hnw
-      obtain ⟨f', rfl⟩ : ∃ f', f0 = f' + 1 := ⟨f0 - 1, by omega⟩
+      have hbp := budget_pos h reg st
+      obtain ⟨f', rfl⟩ : ∃ f', F = f' + 1 := ⟨F - 1, by omega⟩
       obtain ⟨st4, i, hload, inv4, ext4, mem4⟩ :=
-        loadRec_named_ok C f' prog o n hon ob hob hrefs st hinv hmemo hnw hw hf (fun _ => hbusy)
+        loadRec_named_ok C f' prog o n hon ob hob hrefs st hinv hmemo hnw hw hfb (fun _ => hbusy)
           (fun prog' => load_named_cb C (f' + 1) prog')
       refine ⟨st4, i, ?_, inv4, ext4, mem4⟩
-      rw [object_named_unfold T (f' + 1) st n ob.cls (encFields reg ob.fields) hlit hmemo hrec hcont, hload]
+      rw [object_named_unfold T (f' + 1) st n ob.cls (encFields h reg h.length ob.fields) hlit hmemo hrec hcont, hload]
       have hwork4 : st4.working = st.working := ext4.work
       have herase : st4.working.erase n = st4.working := by
         rw [hwork4]; exact List.erase_of_not_mem hnw
@@ -603,15 +723,15 @@ theorem load_named_cb (C : CtxC h main reg T rank) : ∀ (f : Nat) (prog : List 
 
 /-- a field of a restored cell while callbacks are being run; `Q c k` = "field `k` of cell `c` is still
 going to be processed" -/
-def FieldOk (reg : Reg) (st : LState) (Q : Nat → Nat → Prop) (c k : Nat) (f : Field) (l : LVal) : Prop :=
+def FieldOk (h : Heap) (reg : Reg) (st : LState) (Q : Nat → Nat → Prop) (c k : Nat) (f : Field) (l : LVal) : Prop :=
   if f.phase = .cb then
-    RelVal reg st.memo f.val l ∨ (l = .pending ∧ (c, k, encVal reg f.val) ∈ st.pend ∧ Q c k)
-  else RelVal reg st.memo f.val l
+    RelV h reg st.heap st.memo h.length f.val l ∨ (l = .pending ∧ (c, k, encVal h reg h.length f.val) ∈ st.pend ∧ Q c k)
+  else RelV h reg st.heap st.memo h.length f.val l
 
 def CellOk (h : Heap) (reg : Reg) (st : LState) (Q : Nat → Nat → Prop) (n : Str) (c : Nat) : Prop :=
   ∃ o ob lo, (o, n) ∈ reg ∧ h[o]? = some ob ∧ st.heap[c]? = some lo ∧ lo.cls = ob.cls ∧
     lo.fields.length = ob.fields.length ∧
-    ∀ k f l, ob.fields[k]? = some f → lo.fields[k]? = some l → FieldOk reg st Q c k f l
+    ∀ k f l, ob.fields[k]? = some f → lo.fields[k]? = some l → FieldOk h reg st Q c k f l
 
 structure CbInv (h : Heap) (reg : Reg) (Q : Nat → Nat → Prop) (st : LState) : Prop where
   keysNodup : (st.memo.map Prod.fst).Nodup
@@ -621,31 +741,31 @@ structure CbInv (h : Heap) (reg : Reg) (Q : Nat → Nat → Prop) (st : LState) 
   cells : ∀ e ∈ st.memo, CellOk h reg st Q e.1 e.2
 
 theorem cellVals_pointwise {st : LState} {c : Nat} : ∀ (k0 : Nat) (fs : List Field) (ls : List LVal),
-    CellVals reg st c k0 fs ls → ls.length = fs.length ∧
+    CellVals h reg st c k0 fs ls → ls.length = fs.length ∧
     ∀ k f l, fs[k]? = some f → ls[k]? = some l →
-      (if f.phase = .cb then l = .pending ∧ (c, k0 + k, encVal reg f.val) ∈ st.pend ∧ c ∈ st.callbacks
-       else RelVal reg st.memo f.val l)
+      (if f.phase = .cb then l = .pending ∧ (c, k0 + k, encVal h reg h.length f.val) ∈ st.pend ∧ c ∈ st.callbacks
+       else RelV h reg st.heap st.memo h.length f.val l)
   | _, [], [], _ => ⟨rfl, by intro k f l hk; simp at hk⟩
-  | _, _ :: _, [], h => by simp [CellVals] at h
-  | _, [], _ :: _, h => by simp [CellVals] at h
-  | k0, f0 :: fs, l0 :: ls, h => by
-    obtain ⟨ih1, ih2⟩ := cellVals_pointwise (k0 + 1) fs ls h.2
+  | _, _ :: _, [], h0 => by simp [CellVals] at h0
+  | _, [], _ :: _, h0 => by simp [CellVals] at h0
+  | k0, f0 :: fs, l0 :: ls, h0 => by
+    obtain ⟨ih1, ih2⟩ := cellVals_pointwise (k0 + 1) fs ls h0.2
     refine ⟨by simp [ih1], ?_⟩
     intro k f l hk hl
     cases k with
     | zero =>
       simp only [List.getElem?_cons_zero, Option.some.injEq] at hk hl
       subst hk; subst hl
-      simpa using h.1
+      simpa using h0.1
     | succ k =>
       simp only [List.getElem?_cons_succ] at hk hl
       have := ih2 k f l hk hl
       have e : k0 + 1 + k = k0 + (k + 1) := by omega
       rw [e] at this; exact this
 
-theorem relVals_of_pointwise {memo : List (Str × Nat)} : ∀ (fs : List Field) (ls : List LVal),
-    ls.length = fs.length → (∀ (k : Nat) (f : Field) (l : LVal), fs[k]? = some f → ls[k]? = some l → RelVal reg memo f.val l) →
-    RelVals reg memo (fs.map (·.val)) ls
+theorem relVals_of_pointwise {R : Val → LVal → Prop} : ∀ (fs : List Field) (ls : List LVal),
+    ls.length = fs.length → (∀ (k : Nat) (f : Field) (l : LVal), fs[k]? = some f → ls[k]? = some l → R f.val l) →
+    RelVals R (fs.map (·.val)) ls
   | [], [], _, _ => trivial
   | _ :: _, [], hl, _ => by simp at hl
   | [], _ :: _, hl, _ => by simp at hl
@@ -653,33 +773,52 @@ theorem relVals_of_pointwise {memo : List (Str × Nat)} : ∀ (fs : List Field) 
     ⟨hp 0 f l (by simp) (by simp),
      relVals_of_pointwise fs ls (by simpa using hl) (fun k g m hk hm => hp (k + 1) g m (by simpa using hk) (by simpa using hm))⟩
 
-theorem findPend_some {p : List (Nat × Nat × JVal)} {c k : Nat} {j : JVal} (h : findPend p c k = some j) :
+theorem relVals_pointwise {R : Val → LVal → Prop} : ∀ (fs : List Field) (ls : List LVal),
+    RelVals R (fs.map (·.val)) ls → ls.length = fs.length ∧
+      ∀ (k : Nat) (f : Field) (l : LVal), fs[k]? = some f → ls[k]? = some l → R f.val l
+  | [], [], _ => ⟨rfl, by intro k f l hk; simp at hk⟩
+  | _ :: _, [], h0 => by simp [RelVals] at h0
+  | [], _ :: _, h0 => by simp [RelVals] at h0
+  | f0 :: fs, l0 :: ls, h0 => by
+    obtain ⟨ih1, ih2⟩ := relVals_pointwise fs ls h0.2
+    refine ⟨by simp [ih1], ?_⟩
+    intro k f l hk hl
+    cases k with
+    | zero =>
+      simp only [List.getElem?_cons_zero, Option.some.injEq] at hk hl
+      subst hk; subst hl
+      exact h0.1
+    | succ k =>
+      simp only [List.getElem?_cons_succ] at hk hl
+      exact ih2 k f l hk hl
+
+theorem findPend_some {p : List (Nat × Nat × JVal)} {c k : Nat} {j : JVal} (h0 : findPend p c k = some j) :
     (c, k, j) ∈ p := by
   induction p with
-  | nil => simp [findPend] at h
+  | nil => simp [findPend] at h0
   | cons e r ih =>
     obtain ⟨c', k', j'⟩ := e
-    unfold findPend at h
+    unfold findPend at h0
     by_cases hck : c' = c ∧ k' = k
-    · simp only [hck, and_self, if_true, Option.some.injEq] at h
-      rw [hck.1, hck.2, h]; exact List.mem_cons_self
-    · simp only [hck, if_false] at h
-      exact List.mem_cons_of_mem _ (ih h)
+    · simp only [hck, and_self, if_true, Option.some.injEq] at h0
+      rw [hck.1, hck.2, h0]; exact List.mem_cons_self
+    · simp only [hck, if_false] at h0
+      exact List.mem_cons_of_mem _ (ih h0)
 
-theorem findPend_none {p : List (Nat × Nat × JVal)} {c k : Nat} (h : findPend p c k = none) (j : JVal) :
+theorem findPend_none {p : List (Nat × Nat × JVal)} {c k : Nat} (h0 : findPend p c k = none) (j : JVal) :
     (c, k, j) ∉ p := by
   induction p with
   | nil => simp
   | cons e r ih =>
     obtain ⟨c', k', j'⟩ := e
-    unfold findPend at h
+    unfold findPend at h0
     by_cases hck : c' = c ∧ k' = k
-    · simp [hck] at h
-    · simp only [hck, if_false] at h
+    · simp [hck] at h0
+    · simp only [hck, if_false] at h0
       intro hm
       rcases List.mem_cons.mp hm with e1 | e1
       · simp only [Prod.mk.injEq] at e1; exact hck ⟨e1.1.symm, e1.2.1.symm⟩
-      · exact ih h e1
+      · exact ih h0 e1
 
 theorem mem_removePend {p : List (Nat × Nat × JVal)} {c k : Nat} {e : Nat × Nat × JVal} :
     e ∈ removePend p c k ↔ e ∈ p ∧ ¬ (e.1 = c ∧ e.2.1 = k) := by
@@ -693,28 +832,33 @@ theorem mem_removePend {p : List (Nat × Nat × JVal)} {c k : Nat} {e : Nat × N
     · right; intro b; exact h2 ⟨a, b⟩
     · left; exact a
 
-/-- with every registered name restored, a pending callback value resolves by a memo hit -/
-theorem memo_hit (C : CtxC h main reg T rank) {Q : Nat → Nat → Prop} {st : LState} (inv : CbInv h reg Q st) (f0 : Nat)
-    (ob : Obj) (hobm : ob ∈ h) (hrefs : RefsIn reg ob.fields) (g : Field) (hg : g ∈ ob.fields) :
-    ∃ v, object T (f0 + 1) st (encVal reg g.val) = (st, .ok v) ∧ RelVal reg st.memo g.val v := by
+/-- with every registered name restored, a pending callback value resolves by a memo hit
+(a callback field never holds an inlined record) -/
+theorem memo_hit (C : CtxC h main reg T rank idep) {Q : Nat → Nat → Prop} {st : LState} (inv : CbInv h reg Q st) (f0 : Nat)
+    (o : Nat) (ob : Obj) (hob : h[o]? = some ob) (hrefs : RefsIn h reg h.length ob.fields) (g : Field) (hg : g ∈ ob.fields)
+    (hgcb : g.phase = .cb) :
+    ∃ v, object T (f0 + 1) st (encVal h reg h.length g.val) = (st, .ok v) ∧ RelV h reg st.heap st.memo h.length g.val v := by
+  have hrg : RefsInV h reg h.length g.val := hrefs g hg
   cases hv : g.val with
-  | lit n => exact ⟨.lit n, rfl, rfl⟩
+  | lit n => exact ⟨.lit n, by simp only [encVal, object], by simp only [RelV]⟩
   | str s =>
-    refine ⟨.str s, ?_, rfl⟩
+    refine ⟨.str s, ?_, by simp only [RelV]⟩
     simp only [encVal, object, (literal_roundtrip s).1, if_true, (literal_roundtrip s).2]
   | ref p =>
-    obtain ⟨m, hm⟩ := hrefs g hg p hv
+    rw [hv] at hrg
+    simp only [RefsInV] at hrg
+    obtain ⟨m, hm⟩ := hrg
     have hpm : (p, m) ∈ reg := lookupName_some_mem hm
     obtain ⟨j, hj⟩ := inv.allIn p m hpm
-    refine ⟨.ref j, ?_, ⟨m, hm, hj⟩⟩
+    refine ⟨.ref j, ?_, by simp only [RelV]; exact ⟨m, hm, hj⟩⟩
     have hlit : isLiteralStr m = false := C.regOk.notLiteral (p, m) hpm
     simp only [encVal, hm, Option.getD_some, object, hlit, hj]
     rfl
-  | own p => exact absurd hv (C.noOwn ob hobm g hg p)
+  | own p => exact absurd hgcb (C.edge o ob hob g hg p hv).2
 
 theorem FieldOk.monoQ {st : LState} {Q Q' : Nat → Nat → Prop} {c k : Nat} {f : Field} {l : LVal}
-    (hq : ∀ k', (c, k', encVal reg f.val) ∈ st.pend → Q c k' → Q' c k') (hf : FieldOk reg st Q c k f l) :
-    FieldOk reg st Q' c k f l := by
+    (hq : ∀ k', (c, k', encVal h reg h.length f.val) ∈ st.pend → Q c k' → Q' c k') (hf : FieldOk h reg st Q c k f l) :
+    FieldOk h reg st Q' c k f l := by
   unfold FieldOk at hf ⊢
   split
   · rename_i hcb
@@ -733,7 +877,7 @@ theorem CbInv.monoQ {Q Q' : Nat → Nat → Prop} {st : LState} (hq : ∀ c k j,
   exact ⟨o, ob, lo, a1, a2, a3, a4, a5, fun k f l hk hl => (a6 k f l hk hl).monoQ (fun k' hp hq' => hq _ _ _ hp hq')⟩
 
 /-- one `__setgluestate_callback__`: every pending field of cell `c0` is resolved by a memo hit -/
-theorem runCallback_ok (C : CtxC h main reg T rank) (f0 : Nat) (c0 : Nat) (rest : List Nat) :
+theorem runCallback_ok (C : CtxC h main reg T rank idep) (f0 : Nat) (c0 : Nat) (rest : List Nat) :
     ∀ (ks : List Nat) (st : LState),
       CbInv h reg (fun c k => (c = c0 ∧ k ∈ ks) ∨ (c ≠ c0 ∧ c ∈ rest)) st →
       ∃ st', runCallback (object T (f0 + 1)) c0 st ks = (st', true) ∧ st'.memo = st.memo ∧
@@ -760,13 +904,13 @@ theorem runCallback_ok (C : CtxC h main reg T rank) (f0 : Nat) (c0 : Nat) (rest 
       have hmemp : (c0, k, src) ∈ st.pend := findPend_some hfp
       obtain ⟨n, o, ob, f, b1, b2, b3, b4, b5, b6⟩ := inv.pendOk _ hmemp
       simp only at b1 b4 b6
-      have hobm : ob ∈ h := List.mem_of_getElem? b3
-      obtain ⟨_, _, _, hrefs⟩ := C.tbl o n b2
-      have hrefs' : RefsIn reg ob.fields := by
+      have hrefs' : RefsIn h reg h.length ob.fields := by
         obtain ⟨ob', c1, _, c3⟩ := C.tbl o n b2
         rw [b3] at c1; cases c1; exact c3
-      obtain ⟨v, hv, hrel⟩ := memo_hit C inv f0 ob hobm hrefs' f (List.mem_of_getElem? b4)
+      obtain ⟨v, hv, hrel⟩ := memo_hit C inv f0 o ob b3 hrefs' f (List.mem_of_getElem? b4) b5
       let st2 : LState := { st with heap := setField st.heap c0 k v, pend := removePend st.pend c0 k }
+      have pres : RelPres h reg st st2 := fun d v' l hr =>
+        relPres_setField st (mem_snd_of_lookup b1) k v d v' l hr
       have inv2 : CbInv h reg (fun c k' => (c = c0 ∧ k' ∈ ks) ∨ (c ≠ c0 ∧ c ∈ rest)) st2 := by
         refine ⟨inv.keysNodup, inv.valsNodup, inv.allIn, ?_, ?_⟩
         · intro e he
@@ -796,7 +940,7 @@ theorem runCallback_ok (C : CtxC h main reg T rank) (f0 : Nat) (c0 : Nat) (rest 
                 subst hl2
                 unfold FieldOk
                 simp only [b5, if_true]
-                exact Or.inl hrel
+                exact Or.inl (pres _ _ _ hrel)
               · simp only [List.getElem?_set, Ne.symm hkk, if_false] at hl2
                 have old := a6 k2 f2 l2 hk2 hl2
                 unfold FieldOk at old ⊢
@@ -804,7 +948,7 @@ theorem runCallback_ok (C : CtxC h main reg T rank) (f0 : Nat) (c0 : Nat) (rest 
                 · rename_i hcb
                   simp only [hcb, if_true] at old
                   rcases old with old | ⟨o1, o2, o3⟩
-                  · exact Or.inl old
+                  · exact Or.inl (pres _ _ _ old)
                   · right
                     refine ⟨o1, mem_removePend.mpr ⟨o2, fun hh => hkk hh.2⟩, ?_⟩
                     rcases o3 with ⟨_, hk2m⟩ | ⟨hne, _⟩
@@ -815,7 +959,7 @@ theorem runCallback_ok (C : CtxC h main reg T rank) (f0 : Nat) (c0 : Nat) (rest 
                       · exact e1
                     · exact absurd hec hne
                 · rename_i hcb
-                  simp only [hcb, if_false] at old; exact old
+                  simp only [hcb, if_false] at old; exact pres _ _ _ old
           · -- another cell: untouched
             refine ⟨o', ob', lo, a1, a2, ?_, a4, a5, ?_⟩
             · simp only [st2, setField, List.getElem?_modify, a3, Option.map_eq_map, Option.map_some, Ne.symm hec, if_false]
@@ -826,21 +970,21 @@ theorem runCallback_ok (C : CtxC h main reg T rank) (f0 : Nat) (c0 : Nat) (rest 
               · rename_i hcb
                 simp only [hcb, if_true] at old
                 rcases old with old | ⟨o1, o2, o3⟩
-                · exact Or.inl old
+                · exact Or.inl (pres _ _ _ old)
                 · right
                   refine ⟨o1, mem_removePend.mpr ⟨o2, fun hh => hec hh.1⟩, ?_⟩
                   rcases o3 with ⟨hc, _⟩ | o3
                   · exact absurd hc hec
                   · exact Or.inr o3
               · rename_i hcb
-                simp only [hcb, if_false] at old; exact old
+                simp only [hcb, if_false] at old; exact pres _ _ _ old
       obtain ⟨st', e', m', i'⟩ := runCallback_ok C f0 c0 rest ks st2 inv2
       refine ⟨st', ?_, by rw [m'], i'⟩
       simp only [runCallback, hfp, b6, hv]
       exact e'
 
 /-- `_try_callbacks` once every registered name has been restored: all callbacks complete. -/
-theorem tryCallbacks_ok (C : CtxC h main reg T rank) (f0 : Nat) : ∀ (R : List Nat) (st : LState),
+theorem tryCallbacks_ok (C : CtxC h main reg T rank idep) (f0 : Nat) : ∀ (R : List Nat) (st : LState),
     CbInv h reg (fun c _ => c ∈ R) st →
     (tryCallbacks (object T (f0 + 1)) st R).memo = st.memo ∧
       CbInv h reg (fun _ _ => False) (tryCallbacks (object T (f0 + 1)) st R)
@@ -889,59 +1033,109 @@ theorem good_of_cbInv {st : LState} (inv : CbInv h reg (fun _ _ => False) st) :
     · exact absurd t id
   · exact this
 
-/-- every object of the heap hangs below `main` through non-callback edges (`dist` decreases towards `main`) -/
+/-- every object of the heap hangs below `main` through non-callback edges — named references or
+inlined records (`dist` decreases towards `main`) -/
 def Covered (h : Heap) (main : Nat) (dist : Nat → Nat) : Prop :=
   ∀ o ob, h[o]? = some ob → o = main ∨
-    ∃ q obq f, h[q]? = some obq ∧ f ∈ obq.fields ∧ f.phase ≠ .cb ∧ f.val = .ref o ∧ dist q < dist o
+    ∃ q obq f, h[q]? = some obq ∧ f ∈ obq.fields ∧ f.phase ≠ .cb ∧ f.val.target = some o ∧ dist q < dist o
 
-/-- after `main`'s loader, every object of a covered heap has been restored -/
-theorem all_loaded (C : CtxC h main reg T rank) (dist : Nat → Nat) (hcov : Covered h main dist)
+/-- the non-callback fields of `ob` have been restored somewhere (in a named or in an anonymous cell) -/
+def FieldsDone (h : Heap) (reg : Reg) (st : LState) (ob : Obj) : Prop :=
+  ∃ (d : Nat) (lf : List LVal), lf.length = ob.fields.length ∧ ∀ (k : Nat) (f : Field) (l : LVal),
+    ob.fields[k]? = some f → lf[k]? = some l → f.phase ≠ .cb → RelV h reg st.heap st.memo d f.val l
+
+theorem fieldsDone_named {st : LState} (inv : LInvC h reg [] st) {o : Nat} {ob : Obj} {m : Str} {j : Nat}
+    (hk : RegOk main reg) (hom : (o, m) ∈ reg) (hob : h[o]? = some ob) (hj : lookupMemo st.memo m = some j) :
+    FieldsDone h reg st ob := by
+  obtain ⟨_, o', ob', lo, a1, a2, a3, a4, a5⟩ := inv.good (m, j) (lookupMemo_some_mem hj) (by simp)
+  have ho : o' = o := hk.obj_unique a1 hom
+  subst ho
+  rw [hob] at a2; cases a2
+  obtain ⟨hlen, hpt⟩ := cellVals_pointwise 0 ob.fields lo.fields a5
+  refine ⟨h.length, lo.fields, hlen, ?_⟩
+  intro k f l hkf hl hncb
+  have := hpt k f l hkf hl
+  simpa only [hncb, if_false] using this
+
+/-- after `main`'s loader, the non-callback fields of every object of a covered heap have been restored -/
+theorem all_loaded (C : CtxC h main reg T rank idep) (dist : Nat → Nat) (hcov : Covered h main dist)
     {st : LState} (inv : LInvC h reg [] st) {i : Nat} (hmi : lookupMemo st.memo mainName = some i) :
-    ∀ (d : Nat) (o : Nat) (ob : Obj), dist o ≤ d → h[o]? = some ob →
-      ∃ n j, (o, n) ∈ reg ∧ lookupMemo st.memo n = some j
+    ∀ (d : Nat) (o : Nat) (ob : Obj), dist o ≤ d → h[o]? = some ob → FieldsDone h reg st ob
   | d, o, ob, hd, hob => by
     have hmain : (main, mainName) ∈ reg := lookupName_some_mem C.regOk.mainIn
     rcases hcov o ob hob with hm | ⟨q, obq, f, hq, hf, hncb, hfv, hdq⟩
-    · subst hm; exact ⟨mainName, i, hmain, hmi⟩
+    · subst hm; exact fieldsDone_named inv C.regOk hmain hob hmi
     · cases d with
       | zero => omega
       | succ d =>
-        obtain ⟨m, jq, hqm, hjq⟩ := all_loaded C dist hcov inv hmi d q obq (by omega) hq
-        obtain ⟨_, o', ob', lo, a1, a2, a3, a4, a5⟩ := inv.good (m, jq) (lookupMemo_some_mem hjq) (by simp)
-        have ho : o' = q := C.regOk.obj_unique a1 hqm
-        subst ho
-        rw [hq] at a2; cases a2
-        obtain ⟨hlen, hpt⟩ := cellVals_pointwise 0 obq.fields lo.fields a5
+        obtain ⟨dd, lf, hlen, hdone⟩ := all_loaded C dist hcov inv hmi d q obq (by omega) hq
         obtain ⟨k, hk⟩ := List.mem_iff_getElem?.mp hf
-        have hklt : k < lo.fields.length := by
+        have hkl : k < lf.length := by
           rw [hlen]; obtain ⟨hlt, _⟩ := List.getElem?_eq_some_iff.mp hk; exact hlt
-        have hl : lo.fields[k]? = some lo.fields[k] := List.getElem?_eq_getElem hklt
-        have := hpt k f _ hk hl
-        simp only [hncb, if_false, hfv] at this
-        cases hlv : lo.fields[k] <;> rw [hlv] at this <;> simp only [RelVal] at this
-        obtain ⟨nm, h1, h2⟩ := this
-        exact ⟨nm, _, lookupName_some_mem h1, h2⟩
+        have hr := hdone k f lf[k] hk (List.getElem?_eq_getElem hkl) hncb
+        cases hv : f.val with
+        | lit n => rw [hv] at hfv; cases hfv
+        | str s => rw [hv] at hfv; cases hfv
+        | ref p =>
+          rw [hv] at hfv hr
+          simp only [Val.target, Option.some.injEq] at hfv
+          subst hfv
+          cases hl : lf[k] <;> rw [hl] at hr <;> simp only [RelV] at hr
+          obtain ⟨m, h1, h2⟩ := hr
+          exact fieldsDone_named inv C.regOk (lookupName_some_mem h1) hob h2
+        | own p =>
+          rw [hv] at hfv hr
+          simp only [Val.target, Option.some.injEq] at hfv
+          subst hfv
+          cases dd with
+          | zero => cases hl : lf[k] <;> rw [hl] at hr <;> simp [RelV] at hr
+          | succ dd =>
+            cases hl : lf[k] <;> rw [hl] at hr <;> simp only [RelV] at hr
+            obtain ⟨_, obp, lo, a1, _, _, a4, _⟩ := hr
+            rw [hob] at a1; cases a1
+            obtain ⟨hlen', hpt⟩ := relVals_pointwise ob.fields lo.fields a4
+            exact ⟨dd, lo.fields, hlen', fun k' f' l' hk' hl' _ => hpt k' f' l' hk' hl'⟩
 
-/-- **Round trip with generator loaders and deferred callbacks.** -/
-theorem roundtrip_cb_core (rank dist : Nat → Nat) (hno : NoOwn h)
+theorem refInTree_isRefTarget : ∀ (d q t : Nat), RefInTree h d q t → isRefTarget h t = true
+  | 0, _, _, hr => by simp [RefInTree] at hr
+  | d + 1, q, t, hr => by
+    simp only [RefInTree] at hr
+    obtain ⟨ob, hob, f, hf, hcase⟩ := hr
+    rcases hcase with hv | ⟨p, _, hsub⟩
+    · unfold isRefTarget
+      rw [List.any_eq_true]
+      refine ⟨ob, List.mem_of_getElem? hob, ?_⟩
+      rw [List.any_eq_true]
+      exact ⟨f, hf, by simp [hv]⟩
+    · exact refInTree_isRefTarget d p t hsub
+
+/-- **Round trip with generator loaders, deferred callbacks and inlined records.** -/
+theorem roundtrip_cb_core (rank idep dist : Nat → Nat)
     (hgc : ∀ ob ∈ h, (∃ f ∈ ob.fields, f.phase = .late) → ∀ f ∈ ob.fields, f.phase ≠ .cb)
-    (hrkE : ∀ o ob, h[o]? = some ob → ∀ f ∈ ob.fields, f.phase = .early → ∀ p, f.val = .ref p → rank p < rank o)
-    (hrkL : ∀ o ob, h[o]? = some ob → ∀ f ∈ ob.fields, f.phase = .late → ∀ p, f.val = .ref p → rank p ≤ rank o)
+    (hrkE : ∀ o ob, h[o]? = some ob → ∀ f ∈ ob.fields, f.phase = .early → ∀ p, f.val.target = some p → rank p < rank o)
+    (hrkL : ∀ o ob, h[o]? = some ob → ∀ f ∈ ob.fields, f.phase = .late → ∀ p, f.val.target = some p → rank p ≤ rank o)
     (hmainPlain : ∀ ob, h[main]? = some ob → ∀ f ∈ ob.fields, f.phase ≠ .late)
     (hcov : Covered h main dist)
-    {st : SState} {T : Table} (hs : serialize h main = .ok (st, T)) (fuel : Nat) (hfuel : st.reg.length + 2 < fuel) :
+    (hdepth : ∀ o, o < h.length → idep o ≤ h.length)
+    (hedge : ∀ (o : Nat) (ob : Obj), h[o]? = some ob → ∀ f ∈ ob.fields, ∀ p, f.val = Val.own p → idep p < idep o ∧ f.phase ≠ .cb)
+    (hinl : ∀ (o : Nat) (ob : Obj), h[o]? = some ob → ∀ f ∈ ob.fields, ∀ p, f.val = Val.own p → ∀ obp : Obj, h[p]? = some obp →
+      (∀ x ∈ obp.fields, x.phase = .early) ∧ p ≠ main ∧ isRefTarget h p = false)
+    {st : SState} {T : Table} (hs : serialize h main = .ok (st, T)) (fuel : Nat)
+    (hfuel : (st.reg.length + 1) * (h.length + 1) + 1 < fuel) :
     ∃ ls i, unserialize T fuel = (ls, .ok (.ref i)) ∧ specRoundTrip h st.reg ls = true := by
-  obtain ⟨hk, hreach, hkeys, hent⟩ := serialize_spec h main hno hs
+  obtain ⟨hk, hreach, hkeys, hent⟩ := serialize_spec h main hs
   have hTnd : (T.map Prod.fst).Nodup := by rw [hkeys]; exact hk.namesNodup
-  have C : CtxC h main st.reg T rank := {
+  have C : CtxC h main st.reg T rank idep := {
     regOk := hk
     tbl := fun o n hon => by
       obtain ⟨ob, h1, h2, h3⟩ := hent o n hon
       exact ⟨ob, h1, lookupRec_of_mem hTnd h2, h3⟩
-    noOwn := hno
     noGenCb := hgc
     rkEarly := hrkE
-    rkLate := hrkL }
+    rkLate := hrkL
+    depth := hdepth
+    edge := hedge
+    inlEarly := fun o ob hob f hf p hp obp hobp => (hinl o ob hob f hf p hp obp hobp).1 }
   have hmain : (main, mainName) ∈ st.reg := lookupName_some_mem hk.mainIn
   obtain ⟨f', rfl⟩ : ∃ f', fuel = f' + 1 + 1 := ⟨fuel - 2, by omega⟩
   have inv0 : LInvC h st.reg [] initL :=
@@ -949,11 +1143,15 @@ theorem roundtrip_cb_core (rank dist : Nat → Nat) (hno : NoOwn h)
      by intro e he; simp [initL] at he, by intro e he; simp [initL] at he, by intro e he; simp [initL] at he⟩
   have htodo : todo st.reg initL ≤ st.reg.length := by
     unfold todo; exact List.length_filter_le _ _
+  have hb : budget h st.reg initL < f' + 1 + 1 := by
+    have : budget h st.reg initL ≤ (st.reg.length + 1) * (h.length + 1) := by
+      unfold budget; exact Nat.mul_le_mul_right _ (by omega)
+    omega
   obtain ⟨ob, hob, hrec, hrefs⟩ := C.tbl main mainName hmain
   have hlit : isLiteralStr mainName = false := mainName_not_literal
   obtain ⟨st4, i, hload, inv4, ext4, mem4⟩ :=
     loadRec_named_ok C f' [] main mainName hmain ob hob hrefs initL inv0 rfl (by simp [initL])
-      (by intro w hw; simp [initL] at hw) (by omega)
+      (by intro w hw; simp [initL] at hw) hb
       (by rintro ⟨g, hg, hgl⟩; exact absurd hgl (hmainPlain ob hob g hg))
       (fun prog' => load_named_cb C (f' + 1) prog')
   have hwork4 : st4.working = [] := ext4.work
@@ -961,8 +1159,35 @@ theorem roundtrip_cb_core (rank dist : Nat → Nat) (hno : NoOwn h)
   have hallIn : ∀ o n, (o, n) ∈ st.reg → ∃ j, lookupMemo st4.memo n = some j := by
     intro o n hon
     obtain ⟨ob', hob', _, _⟩ := C.tbl o n hon
-    obtain ⟨n', j, hn', hj⟩ := all_loaded C dist hcov inv4 mem4 (dist o) o ob' (Nat.le_refl _) hob'
-    rw [hk.name_unique hon hn']; exact ⟨j, hj⟩
+    rcases hcov o ob' hob' with hm | ⟨q, obq, f, hq, hf, hncb, hfv, hdq⟩
+    · subst hm
+      rw [hk.name_unique hon hmain]; exact ⟨i, mem4⟩
+    · obtain ⟨dd, lf, hlen, hdone⟩ := all_loaded C dist hcov inv4 mem4 (dist q) q obq (Nat.le_refl _) hq
+      obtain ⟨k, hkf⟩ := List.mem_iff_getElem?.mp hf
+      have hkl : k < lf.length := by
+        rw [hlen]; obtain ⟨hlt, _⟩ := List.getElem?_eq_some_iff.mp hkf; exact hlt
+      have hr := hdone k f lf[k] hkf (List.getElem?_eq_getElem hkl) hncb
+      cases hv : f.val with
+      | lit n => rw [hv] at hfv; cases hfv
+      | str s => rw [hv] at hfv; cases hfv
+      | ref p =>
+        rw [hv] at hfv hr
+        simp only [Val.target, Option.some.injEq] at hfv
+        subst hfv
+        cases hl : lf[k] <;> rw [hl] at hr <;> simp only [RelV] at hr
+        obtain ⟨m, h1, h2⟩ := hr
+        rw [hk.name_unique hon (lookupName_some_mem h1)]; exact ⟨_, h2⟩
+      | own p =>
+        -- a registered object is `main` or referred to by name, so it is not an inlined object
+        exfalso
+        rw [hv] at hfv
+        simp only [Val.target, Option.some.injEq] at hfv
+        subst hfv
+        obtain ⟨_, hnm, hnr⟩ := hinl q obq hq f hf p hv ob' hob'
+        obtain ⟨pre, post, hsplit⟩ := List.append_of_mem hon
+        rcases hreach pre (p, n) post hsplit with hm | ⟨q', _, hrt⟩
+        · exact hnm hm
+        · rw [refInTree_isRefTarget _ _ _ hrt] at hnr; cases hnr
   have cb0 : CbInv h st.reg (fun c _ => c ∈ st4.callbacks) st4 := by
     refine ⟨inv4.keysNodup, inv4.valsNodup, hallIn, inv4.pendOk, ?_⟩
     intro e he
@@ -983,7 +1208,7 @@ theorem roundtrip_cb_core (rank dist : Nat → Nat) (hno : NoOwn h)
     spec_of_loaded hk hreach _ (good_of_cbInv cb5) cb5.valsNodup (by rw [m5]; exact mem4)⟩
   unfold unserialize
   have hcont : initL.working.contains mainName = false := by simp [initL]
-  rw [object_named_unfold T (f' + 1) initL mainName ob.cls (encFields st.reg ob.fields) hlit rfl hrec hcont, hload]
+  rw [object_named_unfold T (f' + 1) initL mainName ob.cls (encFields h st.reg h.length ob.fields) hlit rfl hrec hcont, hload]
   have herase : st4.working.erase mainName = st4.working := by rw [hwork4]; rfl
   have hst : ({ st4 with working := st4.working.erase mainName } : LState) = st4 := by rw [herase]
   simp only [hst]
@@ -1014,9 +1239,9 @@ theorem mainPlain_iff (h : Heap) (main : Nat) (hb : mainPlain h main = true) :
   simp [hfl] at this
 
 theorem cyclesBy_iff (rank : Nat → Nat) (h : Heap) (hb : cyclesBy rank h = true) :
-    (∀ o ob, h[o]? = some ob → ∀ f ∈ ob.fields, f.phase = .early → ∀ p, f.val = .ref p → rank p < rank o) ∧
-    (∀ o ob, h[o]? = some ob → ∀ f ∈ ob.fields, f.phase = .late → ∀ p, f.val = .ref p → rank p ≤ rank o) := by
-  have key : ∀ (o : Nat) (ob : Obj), h[o]? = some ob → ∀ (f : Field), f ∈ ob.fields → ∀ (p : Nat), f.val = Val.ref p →
+    (∀ o ob, h[o]? = some ob → ∀ f ∈ ob.fields, f.phase = .early → ∀ p, f.val.target = some p → rank p < rank o) ∧
+    (∀ o ob, h[o]? = some ob → ∀ f ∈ ob.fields, f.phase = .late → ∀ p, f.val.target = some p → rank p ≤ rank o) := by
+  have key : ∀ (o : Nat) (ob : Obj), h[o]? = some ob → ∀ (f : Field), f ∈ ob.fields → ∀ (p : Nat), f.val.target = some p →
       (match f.phase with
         | Phase.early => decide (rank p < rank o)
         | Phase.late => decide (rank p ≤ rank o)
@@ -1028,7 +1253,7 @@ theorem cyclesBy_iff (rank : Nat → Nat) (h : Heap) (hb : cyclesBy rank h = tru
     have := (List.all_eq_true.mp hb) o (List.mem_range.mpr ho)
     simp only [hob] at this
     have := (List.all_eq_true.mp this) f hf
-    simp only [hp, Val.target] at this
+    simp only [hp] at this
     cases hph : f.phase <;> simp only [hph] at this ⊢ <;> first | exact this | rfl
   constructor
   · intro o ob hob f hf hph p hp
